@@ -29,7 +29,7 @@ RULE = (
     "list with >=2 items."
 )
 ASSUMPTIONS = [
-    "values that contain the option's own separator are not generated (no quoting mechanism is documented)",
+    "list items and table keys that contain the option's own separator are not generated (no quoting mechanism is documented); rate-modifier values do contain ':' (kept) and ',' (the multi-value separator: such a value can only be refused, and a refusal is counted, not reported)",
     "the example command's option strings are covered through the same init parser (its dry-run output format: 'k: v' and 'k=v' joined by ',')",
 ]
 
@@ -61,6 +61,12 @@ def _case(draw):
         # pseudo-elements are regular expressions (the default list carries the excited-state marker as '\\*' and the
         # isomer prefixes 'c-', 'l-'): they must reach the configuration verbatim
         d["pseudo"] = list(d["pseudo"]) + draw(st.sampled_from([["\\*"], ["c-", "l-"], ["c-", "\\*"]]))
+    if d["rate_mod"] and draw(st.integers(0, 2)) == 0:
+        # values containing the option's own separators: ':' (a C conditional) is part of the value after the first ':';
+        # ',' separates several modifiers in one option, so a value with a comma can only be refused
+        k0 = sorted(d["rate_mod"])[0]
+        d["rate_mod"][k0] = draw(st.sampled_from(["Tgas > 20.0 ? 1.0e-10 : 0.5e-10", "Tgas > 20.0 ? 1.0e-10 : 0.5e-10", "1.0e-10 * pow(Tgas / 300.0, 0.5)",
+                                                  "(Tgas > 20.0 ? 1.0e-10 : 2.0e-10) * pow(Tgas, 0.5)"]))
     d["cooling"] = []
     d["shielding"] = draw(st.sampled_from([{}, {}, {"CO": "VB88Table"}, {"H2": "L96Table", "CO": "V09Table"}]))
     if d["fmt"] in ("kida", "umist", "naunet") and draw(st.booleans()):
@@ -600,6 +606,12 @@ def check_case(case, tier):
         return CaseResult(discarded=True)  # the description itself is refused by the API: outside the domain
     res = call("vtlib.checks.c20", "run_init", {"desc": d, "options": opts})
     spaced = "/blanks" if any(d["spacing"].values()) else ""
+    comma_value = any("," in str(v) for v in d["rate_mod"].values())
+    if any(":" in str(v) or "," in str(v) for v in d["rate_mod"].values()):
+        labels.append("rate-modifier-value-with-separator")
+    if "raised" in res and comma_value:
+        # 'idx:value,idx:value' is the option's multi-value form: a value containing a comma is refused (loudly), not accepted
+        return CaseResult([], False, labels + ["refused/comma-in-rate-modifier-value"], sample={"options": opts[:600]})
     if "raised" in res:
         failures.append((f"config/init-raises/{res['raised'].split(':')[0]}{spaced}", f"naunet init {opts[:300]} ... -> {res['raised']}"))
     elif res["config"] is None:
